@@ -4,7 +4,7 @@ stops the acceptor, and all framework threads terminate."
 
 Stated over the model of the shutdown protocol (Model/Shutdown.lean: Listener::run/shutdown, SyncImpl::run/runOnce/shutdown,
 AsyncImpl::shutdown, the edge-triggered NotifyFd) for ANY number of workers and EVERY schedule: any interleaving, of any
-length, of acceptor steps, worker steps, steps of the thread inside shutdown() and clients connecting — shutdown() may start
+length, of acceptor steps (also ones during which accept4 fails), worker steps, steps of the thread inside shutdown() and clients connecting — shutdown() may start
 at any point of it.
 
 What the model cannot exhibit (observed on the implementation instead: thread counts after shutdown in the `mt` scenarios,
@@ -93,13 +93,36 @@ theorem wakeup_never_lost (n : Nat) (hn : 0 < n) (sched : List Actor) :
 def Quiet (s : St) : Prop :=
   s.acc.pc ≠ .exited ∧ Src.shut ∉ s.acc.ready ∧ Src.shut ∉ s.acc.batch ∧ ∀ j, (s.ws j).pc ≠ .exited ∧ (s.ws j).flag = false
 
-theorem handleBatch_noShut (b : List Src) (s : St) (hb : Src.shut ∉ b) : (handleBatch s b).2 = false := by
+theorem handleBatch_noShut (fail : Bool) (b : List Src) (s : St) (hb : Src.shut ∉ b) : (handleBatch fail s b).2 = false := by
   induction b generalizing s with
   | nil => rfl
   | cons e rest ih =>
     cases e with
     | shut => simp at hb
     | listen => simp only [handleBatch]; exact ih _ (by simpa using hb)
+
+theorem quiet_stepA (fail : Bool) (s : St) (h : Quiet s) : Quiet (stepA fail s).1 := by
+  obtain ⟨h1, h2, h3, h4⟩ := h
+  unfold stepA
+  split
+  · split
+    · exact ⟨h1, by simp, h3, h4⟩
+    · refine ⟨by simp, ?_, ?_, h4⟩
+      · show Src.shut ∉ (if (report s.acc).contains .listen then [Src.listen] else [])
+        split <;> simp
+      · show Src.shut ∉ report s.acc
+        unfold report
+        intro hm
+        exact h2 (List.mem_filter.mp hm).1
+  · obtain ⟨_, _, f3, _, f5, _⟩ := handleBatch_frame fail s.acc.batch s
+    have hno := handleBatch_noShut fail s.acc.batch s h3
+    simp only [hno]
+    refine ⟨by simp, ?_, by simp, fun k => ?_⟩
+    · show Src.shut ∉ (handleBatch fail s s.acc.batch).1.acc.ready
+      rw [f3]; exact h2
+    · show ((handleBatch fail s s.acc.batch).1.ws k).pc ≠ .exited ∧ ((handleBatch fail s s.acc.batch).1.ws k).flag = false
+      rw [(f5 k).1, (f5 k).2.1]; exact h4 k
+  · exact ⟨h1, h2, h3, h4⟩
 
 theorem quiet_step (s : St) (a : Actor) (ha : a ≠ .caller) (h : Quiet s) : Quiet (step cfg0 s a) := by
   obtain ⟨h1, h2, h3, h4⟩ := h
@@ -128,28 +151,8 @@ theorem quiet_step (s : St) (a : Actor) (ha : a ≠ .caller) (h : Quiet s) : Qui
         · subst e; simp [(h4 k).2]
         · simpa [e] using h4 k
     · exact ⟨h1, h2, h3, h4⟩
-  | acc =>
-    show Quiet (stepA s).1
-    unfold stepA
-    split
-    · split
-      · exact ⟨h1, by simp, h3, h4⟩
-      · refine ⟨by simp, ?_, ?_, h4⟩
-        · show Src.shut ∉ (if (report s.acc).contains .listen then [Src.listen] else [])
-          split <;> simp
-        · show Src.shut ∉ report s.acc
-          unfold report
-          intro hm
-          exact h2 (List.mem_filter.mp hm).1
-    · obtain ⟨_, _, f3, _, f5, _⟩ := handleBatch_frame s.acc.batch s
-      have hno := handleBatch_noShut s.acc.batch s h3
-      simp only [hno]
-      refine ⟨by simp, ?_, by simp, fun k => ?_⟩
-      · show Src.shut ∉ (handleBatch s s.acc.batch).1.acc.ready
-        rw [f3]; exact h2
-      · show ((handleBatch s s.acc.batch).1.ws k).pc ≠ .exited ∧ ((handleBatch s s.acc.batch).1.ws k).flag = false
-        rw [(f5 k).1, (f5 k).2.1]; exact h4 k
-    · exact ⟨h1, h2, h3, h4⟩
+  | acc => exact quiet_stepA false s ⟨h1, h2, h3, h4⟩
+  | accF => exact quiet_stepA true s ⟨h1, h2, h3, h4⟩
 
 /-- T4: as long as nobody calls shutdown(), no framework thread leaves its loop, whatever clients do. -/
 theorem no_exit_without_shutdown (n : Nat) (sched : List Actor) (h : ∀ a ∈ sched, a ≠ Actor.caller) :
@@ -191,7 +194,10 @@ theorem stuck_step (s : St) (j : Nat) (a : Actor) (h : Stuck s j) : Stuck (step 
     rw [stepS_done _ s h1]; exact ⟨h1, h2, h3, h4, h5⟩
   | conn k => exact ⟨h1, h2, h3, h4, h5⟩
   | acc =>
-    show Stuck (stepA s).1 j
+    show Stuck (stepA false s).1 j
+    unfold stepA; rw [h5]; exact ⟨h1, h2, h3, h4, h5⟩
+  | accF =>
+    show Stuck (stepA true s).1 j
     unfold stepA; rw [h5]; exact ⟨h1, h2, h3, h4, h5⟩
   | w k =>
     show Stuck (stepW s k).1 j
@@ -231,5 +237,7 @@ example : 3 ≤ demoPost.count .acc ∧ ∀ j, j < 2 → 2 ≤ demoPost.count (.
 example : (run cfg0 (demoPre ++ demoPost) (init 2)).acc.pc = .exited := by decide
 example : ((run cfg0 demoPre (init 2)).ws 1).pc = .woke := by decide       -- worker 1 holds events while shutdown() returns
 example : (run cfg0 demoPre (init 2)).acc.backlog = [0] := by decide        -- a connection is still waiting
+-- accept4 fails in the batch that also carries the shutdown edge: the edge is still seen
+example : (run cfg0 [.conn 0, .caller, .caller, .acc, .accF] (init 1)).acc.pc = .exited := by decide
 
 end Pistache.Shutdown.Props
